@@ -2,7 +2,9 @@ package main
 
 import (
 	"fmt"
+	"go/constant"
 	"go/token"
+	"go/types"
 
 	"golang.org/x/tools/go/ssa"
 )
@@ -459,4 +461,199 @@ func ruleReduceStripsAll(w *World, r *RuleResult) {
 	if n == 0 {
 		r.ok("(*Decimal).Reduce | big-coefficient stripping loop", w.pos(top.Pos()), "no QuoRem loop found: this shape is not decided", false)
 	}
+}
+
+func init() {
+	register(&Rule{ID: "C06.R10", Min: 3,
+		Text: "a failed exponent check leaves no hybrid value: setExponent does not store the exponent when it returns a System* condition, so at each call either the receiver's Exponent was already defined by this invocation (a dominating whole-value write or Exponent store), or every path from the call to a return tests the result for both System flags and takes the no-failure edges, or overwrites the receiver with a whole value — otherwise the destination keeps the new coefficient with its previous exponent and depends on what it held before (and on aliasing)",
+		Run:  ruleNoHybridAfterSystem})
+}
+
+var wholeValueWriters = map[string]bool{
+	"(*Decimal).Set": true, "(*Decimal).setSlow": true, "(*Decimal).SetInt64": true, "(*Decimal).SetFinite": true,
+	"(*Decimal).Abs": true, "(*Decimal).Neg": true,
+}
+
+func ruleNoHybridAfterSystem(w *World, r *RuleResult) {
+	calls := w.allCallsTo("(*Decimal).setExponent")
+	if len(calls) == 0 {
+		r.anchorMissing("(*Decimal).setExponent call sites")
+		return
+	}
+	var sysBoth uint64
+	for _, n := range []string{"SystemOverflow", "SystemUnderflow"} {
+		if c, ok := w.Pkg.Types.Scope().Lookup(n).(*types.Const); ok {
+			if v, ok := constant.Uint64Val(c.Val()); ok {
+				sysBoth |= v
+			}
+		}
+	}
+	for _, s := range calls {
+		f := s.Parent()
+		key := fmt.Sprintf("%s | a failed setExponent leaves no hybrid value", w.shortName(f))
+		if n := countKey(r, key); n > 0 {
+			key = fmt.Sprintf("%s #%d", key, n+1)
+		}
+		recv := basePtr(s.Common().Args[0])
+		defines := func(x ssa.Instruction) bool { return w.definesExponent(f, x, recv) }
+		// (a) defined before the call on every path: a defining instruction dominates the call (in the
+		// function itself or, for an unexported helper working on its parameter, in every caller)
+		before := w.exponentDefinedBefore(f, s, recv, 0)
+		if before {
+			r.ok(key, w.instrPos(s), "the receiver's Exponent is defined by this invocation before the call (whole-value write or Exponent store dominating it): a failure leaves a value that depends on the operands only", true)
+			continue
+		}
+		// (b) forward search: every path to a return proves "no System flag" or overwrites the receiver
+		derives := func(v ssa.Value) bool {
+			found := false
+			w.exprOf(f, v).walk(func(x *Expr) bool {
+				if x.V == ssa.Value(s) {
+					found = true
+				}
+				return true
+			})
+			return found
+		}
+		type node struct {
+			b    *ssa.BasicBlock
+			mask int
+		}
+		seen := map[node]bool{}
+		var badRet ssa.Instruction
+		var visit func(b *ssa.BasicBlock, from int, mask int)
+		visit = func(b *ssa.BasicBlock, from int, mask int) {
+			if badRet != nil {
+				return
+			}
+			for i := from; i < len(b.Instrs); i++ {
+				x := b.Instrs[i]
+				if defines(x) {
+					return
+				}
+				switch y := x.(type) {
+				case *ssa.Return:
+					badRet = y
+					return
+				case *ssa.Panic:
+					return
+				case *ssa.If:
+					bit := 0
+					if c, ok := y.Cond.(*ssa.Call); ok && len(c.Common().Args) > 0 && derives(c.Common().Args[0]) {
+						switch w.calleeName(c) {
+						case "(Condition).SystemOverflow":
+							bit = 1
+						case "(Condition).SystemUnderflow":
+							bit = 2
+						}
+					}
+					clearEdge := -1 // the successor on which res&(SystemOverflow|SystemUnderflow) is known to be 0
+					if bo, ok := y.Cond.(*ssa.BinOp); ok && (bo.Op == token.NEQ || bo.Op == token.EQL) {
+						for _, pair := range [][2]ssa.Value{{bo.X, bo.Y}, {bo.Y, bo.X}} {
+							and, ok := pair[0].(*ssa.BinOp)
+							zero, ok2 := pair[1].(*ssa.Const)
+							if !ok || !ok2 || and.Op != token.AND || zero.Value == nil || zero.Int64() != 0 {
+								continue
+							}
+							for _, q := range [][2]ssa.Value{{and.X, and.Y}, {and.Y, and.X}} {
+								k, ok := q[1].(*ssa.Const)
+								if ok && k.Value != nil && derives(q[0]) && uint64(k.Int64())&sysBoth == sysBoth && sysBoth != 0 {
+									if bo.Op == token.NEQ {
+										clearEdge = 1
+									} else {
+										clearEdge = 0
+									}
+								}
+							}
+						}
+					}
+					for si, succ := range b.Succs {
+						m := mask
+						if si == 1 {
+							m |= bit
+						}
+						if si == clearEdge {
+							m = 3
+						}
+						if m == 3 {
+							continue // both flags known clear: the exponent was stored
+						}
+						if n := (node{succ, m}); !seen[n] {
+							seen[n] = true
+							visit(succ, 0, m)
+						}
+					}
+					return
+				}
+			}
+			for _, succ := range b.Succs {
+				if n := (node{succ, mask}); !seen[n] {
+					seen[n] = true
+					visit(succ, 0, mask)
+				}
+			}
+		}
+		visit(s.Block(), instrIndex(s)+1, 0)
+		if badRet == nil {
+			r.ok(key, w.instrPos(s), "every path from the call to a return either takes the edges on which both System flags are clear or overwrites the receiver with a whole value", true)
+		} else {
+			r.bad(key, w.instrPos(s), fmt.Sprintf("the receiver's coefficient/sign/form were written but its Exponent is not defined before this call, and the return at %s can be reached after a System* failure (exponent not stored) without the receiver being overwritten: the destination keeps the new coefficient with its previous exponent, so it differs between a fresh, a reused and an aliased destination", w.instrPos(badRet)))
+		}
+	}
+}
+
+// definesExponent: instruction x of f defines recv.Exponent (a store to the field, or a whole-value write).
+func (w *World) definesExponent(f *ssa.Function, x ssa.Instruction, recv ssa.Value) bool {
+	switch y := x.(type) {
+	case *ssa.Store:
+		if fa, ok := y.Addr.(*ssa.FieldAddr); ok && basePtr(fa.X) == recv && w.exprOf(f, y.Addr).Name == "Exponent" {
+			return true
+		}
+	case *ssa.Call:
+		if g := callee(y); g != nil && wholeValueWriters[w.shortName(g)] && len(y.Common().Args) > 0 && basePtr(y.Common().Args[0]) == recv {
+			return true
+		}
+	}
+	return false
+}
+
+func (w *World) exponentDefinedBefore(f *ssa.Function, at ssa.Instruction, recv ssa.Value, depth int) bool {
+	for _, x := range at.Block().Instrs {
+		if x == at {
+			break
+		}
+		if w.definesExponent(f, x, recv) {
+			return true
+		}
+	}
+	for a := at.Block().Idom(); a != nil; a = a.Idom() {
+		for _, x := range a.Instrs {
+			if w.definesExponent(f, x, recv) {
+				return true
+			}
+		}
+	}
+	p, ok := recv.(*ssa.Parameter)
+	if !ok || depth > 3 || f.Object() == nil || f.Object().Exported() {
+		return false
+	}
+	idx := -1
+	for i, q := range f.Params {
+		if q == p {
+			idx = i
+		}
+	}
+	callers := w.callersOf(f)
+	if idx < 0 || len(callers) == 0 {
+		return false
+	}
+	for _, c := range callers {
+		args := c.Common().Args
+		if c.Common().IsInvoke() || idx >= len(args) {
+			return false
+		}
+		if !w.exponentDefinedBefore(c.Parent(), c, basePtr(args[idx]), depth+1) {
+			return false
+		}
+	}
+	return true
 }
